@@ -975,6 +975,7 @@ def op_table():
         mon_ = getattr(P, "mon", None)
         if mon_ is not None and mon_.enabled:
             mon_.enabled = False            # the copy is outside the monitored pool: this operation is judged by its own oracle
+            mon_.stats["checked"] += 1      # one dumps() call checked against the statement by this operation
             try:
                 return OPS["pickle_roundtrip"][0](P, r, proto, mode)
             finally:
@@ -1049,6 +1050,7 @@ def op_table():
         mon_ = getattr(P, "mon", None)
         if mon_ is not None and mon_.enabled:
             mon_.enabled = False
+            mon_.stats["checked"] += 1
             try:
                 return OPS["pickle_deep"][0](P, n)
             finally:
